@@ -50,12 +50,14 @@ Lock   == /\ E.ev = "lock"
 Unlock == /\ E.ev = "unlock"
           /\ bad' = Note(bad, IF lk # E.t THEN {<<"C12", "critical-section-left-by-a-thread-that-is-not-inside">>} ELSE {})
           /\ lk' = 0 /\ l' = l + 1 /\ UNCHANGED <<mon, cnt, run>>
-Ret   == /\ E.ev = "ret"   /\ Step(P!MonRet(mon, E.ok, E.n, E.kind), cnt)
+Ret   == /\ E.ev = "ret"   /\ Step(P!MonRet(mon, E.ok, E.n, E.kind),
+                                   P!CntRet(cnt, mon.cap = 0 /\ mon.term = "", mon.mode = "emit", E.ok))
 Panic == /\ E.ev = "panic" /\ Step(P!MonPanic(mon), cnt)
 Stats == /\ E.ev = "stats" /\ Step(mon, P!CntStats(cnt, E.bs, E.ps, E.bd, E.pd))
 \* C14 under heavy contention: the tallies of many threads on one unbuffered sink (Ok / Err results and bytes)
 Bulk  == /\ E.ev = "bulk"
-         /\ Step(mon, [cnt EXCEPT !.okPk = @ + E.okn, !.okBy = @ + E.okb, !.erPk = @ + E.ern, !.erBy = @ + E.erb])
+         /\ Step(mon, [cnt EXCEPT !.okPk = @ + E.okn, !.okBy = @ + E.okb, !.erPk = @ + E.ern, !.erBy = @ + E.erb,
+                                  !.okRet = @ + E.okn, !.erRet = @ + E.ern, !.unbuf = TRUE])
 \* implementation-state snapshots are for the replay comparison, not for the monitor
 Skip  == /\ E.ev \in {"st", "note"} /\ Step(mon, cnt)
 
